@@ -206,7 +206,36 @@ func folRunOne(si int, sc *folScenario) ([]folMismatch, map[string]int, error) {
 	var early []string
 	checkEarly := true
 	cuEvents := 0
+	// gate: parks the follower inside its second applied command of a session (under its server lock), i.e. in the
+	// middle of the backlog copy, until released
+	var gateArmed bool
+	gateAppends := 0
+	gateReached := make(chan struct{}, 1)
+	gateRelease := make(chan struct{})
 	fhook := func(s *server.Server, point string, a ...interface{}) {
+		if point == "aof.append" {
+			hmu.Lock()
+			park := false
+			if gateArmed {
+				gateAppends++
+				if gateAppends == 2 {
+					park = true
+				}
+			}
+			rel := gateRelease
+			hmu.Unlock()
+			if park {
+				select {
+				case gateReached <- struct{}{}:
+				default:
+				}
+				select {
+				case <-rel:
+				case <-time.After(40 * time.Second):
+				}
+			}
+			return
+		}
 		if point != "follow.caughtup" {
 			return
 		}
@@ -283,6 +312,36 @@ func folRunOne(si int, sc *folScenario) ([]folMismatch, map[string]int, error) {
 		}
 		return nil
 	}
+	// a backlog larger than the socket buffers between leader and follower (the dataset stays small: one id overwritten)
+	bulk := func() error {
+		pad := strings.Repeat("0123456789abcdef", 340*64)
+		for i := 0; i < 56; i++ {
+			if _, err := ldr[cur].conn.Do("SET", "bulk", "pad", "STRING", pad); err != nil {
+				return err
+			}
+		}
+		return nil
+	}
+	armGate := func() {
+		hmu.Lock()
+		gateArmed, gateAppends = true, 0
+		gateRelease = make(chan struct{})
+		hmu.Unlock()
+		select {
+		case <-gateReached:
+		default:
+		}
+	}
+	releaseGate := func() {
+		hmu.Lock()
+		if gateArmed {
+			gateArmed = false
+			close(gateRelease)
+		}
+		hmu.Unlock()
+	}
+	defer releaseGate()
+	nextIs := func(i int, what string) bool { return i+1 < len(sc.Steps) && sc.Steps[i+1] == what }
 	// ---- initial states
 	for i := 0; i < sc.Prefix; i++ {
 		if err := lwrite(); err != nil {
@@ -319,6 +378,12 @@ func folRunOne(si int, sc *folScenario) ([]folMismatch, map[string]int, error) {
 	early = nil
 	cuEvents = 0
 	hmu.Unlock()
+	if len(sc.Steps) > 0 && sc.Steps[0] == "lshrinkmid" {
+		if err := bulk(); err != nil {
+			return nil, nil, err
+		}
+		armGate()
+	}
 	if err := follow(); err != nil {
 		return nil, nil, err
 	}
@@ -419,6 +484,12 @@ func folRunOne(si int, sc *folScenario) ([]folMismatch, map[string]int, error) {
 			if err := stopFollower(false); err != nil {
 				return nil, nil, err
 			}
+			if nextIs(i, "lshrinkmid") {
+				if err := bulk(); err != nil {
+					return nil, nil, err
+				}
+				armGate()
+			}
 			follower, err = t38.Start(t38.Options{Dir: dir, Port: fport, Hook: fhook})
 			if err != nil {
 				return nil, nil, fmt.Errorf("follower restart: %v", err)
@@ -438,6 +509,37 @@ func folRunOne(si int, sc *folScenario) ([]folMismatch, map[string]int, error) {
 				return nil, nil, fmt.Errorf("AOFSHRINK: %v %v", r, err)
 			}
 			time.Sleep(400 * time.Millisecond)
+			stats["lshrinks"]++
+		case "lshrinkmid":
+			// AOFSHRINK on the leader while the follower is in the middle of its backlog copy (parked by the gate)
+			parked := false
+			hmu.Lock()
+			armed := gateArmed
+			hmu.Unlock()
+			if armed {
+				select {
+				case <-gateReached:
+					parked = true
+				case <-time.After(10 * time.Second):
+				}
+			}
+			if !parked {
+				// not reachable from here (the copy was already over): an ordinary shrink
+				releaseGate()
+				sync(i)
+			}
+			hmu.Lock()
+			needEvents = cuEvents + 1
+			hmu.Unlock()
+			pending = true
+			if r, err := ldr[cur].conn.Do("AOFSHRINK"); err != nil || r.Kind != '+' {
+				return nil, nil, fmt.Errorf("AOFSHRINK: %v %v", r, err)
+			}
+			time.Sleep(700 * time.Millisecond)
+			if parked {
+				stats["lshrinks_midcopy"]++
+				releaseGate()
+			}
 			stats["lshrinks"]++
 		case "refollow":
 			// FOLLOW <other leader> on a follower whose session with the present leader is idle in its read
